@@ -215,7 +215,11 @@ func (c *Config) handleSvcEndpointUpdate(svcName string, added, removed []*servi
 		if !ok {
 			continue
 		}
-		sw.Endpoints = append(sw.Endpoints[:i], sw.Endpoints[i+1:]...)
+		// NOTE: build a new slice, the old one may be referenced by an
+		// event which is still queued.
+		endpoints := make([]*service.Endpoint, 0, len(sw.Endpoints))
+		endpoints = append(endpoints, sw.Endpoints[:i]...)
+		sw.Endpoints = append(endpoints, sw.Endpoints[i+1:]...)
 		validRemoved = append(validRemoved, endpoint)
 	}
 
@@ -251,10 +255,14 @@ func isContainEndpoint(endpoints []*service.Endpoint, endpoint *service.Endpoint
 }
 
 func (c *Config) emitSvcAddEvent(sw *serviceWrapper) {
+	// NOTE: the event gets its own copy of the endpoints, the
+	// subscriber reads it while later updates change the service.
+	endpoints := make([]*service.Endpoint, len(sw.Endpoints))
+	copy(endpoints, sw.Endpoints)
 	evt := &SvcAddEvent{
 		Name:      sw.Service.Name,
 		Config:    sw.Config,
-		Endpoints: sw.Endpoints,
+		Endpoints: endpoints,
 	}
 	c.evtCh <- evt
 }
